@@ -832,7 +832,8 @@ func (s *UtxoStore) ScriptAddressUnspents(tx mwdb.ReadTransaction, scriptAddrs m
 		if !ok {
 			continue
 		}
-		cred.flags.SpentByUnmined = existsRawUnminedInput(nsUnminedInputs, itKey) != nil
+		// bucketUnminedInputs is keyed by the 36-byte outpoint, not by the unspent key
+		cred.flags.SpentByUnmined = existsRawUnminedInput(nsUnminedInputs, canonicalOutPoint(&op.Hash, op.Index)) != nil
 
 		item := &Credit{
 			OutPoint:      op,
